@@ -129,6 +129,101 @@ func r031(c *Ctx, rule string) {
 			all = append(all, cc)
 		}
 	}
+	// the wait loop is left only when every entry was waited for, or by the deadline arm: any other way out cuts the
+	// remaining requests off before the deadline
+	if hdr := loopNext(sel); hdr != nil {
+		hb := hdr.Block()
+		inLoopB := map[*ssa.BasicBlock]bool{}
+		for _, b := range fn.Blocks {
+			if !hb.Dominates(b) {
+				continue
+			}
+			// b can get back to the header
+			seen := map[*ssa.BasicBlock]bool{}
+			stack := append([]*ssa.BasicBlock{}, b.Succs...)
+			for len(stack) > 0 {
+				x := stack[len(stack)-1]
+				stack = stack[:len(stack)-1]
+				if x == hb {
+					inLoopB[b] = true
+					break
+				}
+				if seen[x] || !hb.Dominates(x) {
+					continue
+				}
+				seen[x] = true
+				stack = append(stack, x.Succs...)
+			}
+		}
+		inLoopB[hb] = true
+		// the blocks that only dispatch on the select's index belong to the wait as well
+		isSelIdx := func(v ssa.Value) bool {
+			e, ok := v.(*ssa.Extract)
+			return ok && e.Tuple == ssa.Value(sel) && e.Index == 0
+		}
+		for grown := true; grown; {
+			grown = false
+			for b := range inLoopB {
+				for _, sx := range b.Succs {
+					if inLoopB[sx] {
+						continue
+					}
+					only := len(sx.Instrs) > 0
+					for _, in := range sx.Instrs {
+						switch x := in.(type) {
+						case *ssa.BinOp:
+							if !isSelIdx(x.X) && !isSelIdx(x.Y) {
+								only = false
+							}
+						case *ssa.If:
+						default:
+							only = false
+						}
+					}
+					if only {
+						inLoopB[sx] = true
+						grown = true
+					}
+				}
+			}
+		}
+		okExits := true
+		var badAt ssa.Instruction
+		for b := range inLoopB {
+			for _, sx := range b.Succs {
+				if inLoopB[sx] || b == hb {
+					continue
+				}
+				if len(sx.Instrs) > 0 {
+					if _, isPanic := sx.Instrs[len(sx.Instrs)-1].(*ssa.Panic); isPanic {
+						continue // "blocking select matched no case": not a way out
+					}
+				}
+				arm := -1
+				for _, f := range intFactsOf(append(dominatingConds(b), edgeCond(b, sx)...), func(v ssa.Value) bool {
+					e, ok := v.(*ssa.Extract)
+					return ok && e.Tuple == ssa.Value(sel) && e.Index == 0
+				}) {
+					if f.op == token.EQL {
+						arm = int(f.k)
+					}
+				}
+				if arm != deadlineArm || deadlineArm < 0 {
+					okExits = false
+					if len(b.Instrs) > 0 {
+						badAt = b.Instrs[len(b.Instrs)-1]
+					}
+				}
+			}
+		}
+		pos := sel.Pos()
+		if badAt != nil && badAt.Pos().IsValid() {
+			pos = badAt.Pos()
+		}
+		c.ob(rule, "Drain/wait-loop-left-only-by-completion-or-deadline", pos, okExits, true, "the per-request wait may be abandoned only on the deadline arm; leaving it any other way reaches the cancel-all step while requests that could still finish are in flight")
+	} else {
+		c.ob(rule, "Drain/wait-loop-left-only-by-completion-or-deadline", sel.Pos(), false, true, "the wait select is not inside a loop over the snapshot")
+	}
 	c.ob(rule, "Drain/hijacked-cancelled-before-wait", sel.Pos(), len(hij) >= 1 && func() bool {
 		for _, h := range hij {
 			if !loopHeaderDominates(h.in, sel) {
